@@ -14,7 +14,7 @@ structure Range (α : Type) where
   max : Option α := none
   incMin : Bool := false
   incMax : Bool := false
-  text : Option String := none
+  text : Option (Clause α) := none
 deriving Repr, DecidableEq
 
 namespace Range
